@@ -36,6 +36,9 @@ Observe ==
      /\ r.ev = "prog"
      /\ IF r.outcome = "code" /\ r.load = "ok"
         THEN bad' = UNION {JudgeProbe(r, i) : i \in DOMAIN r.obs}
+        \* located diagnostics = the compiler declares the construct unsupported: outside C01 (C04 judges diagnostics);
+        \* anything else (panic, abort, timeout, emitted module that does not load) is reported here as well
+        ELSE IF r.outcome = "diags" THEN bad' = {}
         ELSE bad' = {[line |-> l, id |-> r.id, probe |-> 0, prop |-> "C01", class |-> "NEW",
                                obs |-> r.outcome, exp |-> "code"]}
   /\ l' = l + 1
